@@ -25,6 +25,7 @@ func checkC14(c *Ctx) {
 	c.Rule("C14/R7", "unit metadata survives from file to file: Files never replaces its reader wholesale and the reader creates its unit table only when it has none")
 
 	c.Rule("C14/R8", "-filter stays in force when -table/-row/-col carry a fixed value list: the projection parser ANDs the list's membership tests with the caller's filter, keeping that filter among the operands (same rule as C06/R6), so a measurement the filter rejects cannot reach a cell")
+	c.Rule("C14/R13", "the -alpha setting reaches every comparison (same rule as C13/R8): NewSample keeps the thresholds it was handed, verbatim")
 	c.Rule("C14/R12", "every cell is summarised under its own unit's assumption (same rule as C15/R12): no goroutine started in the per-table loop captures a variable declared outside the loop and assigned inside it")
 	c.Rule("C14/R11", "which column is the baseline (same rule as C09/R1 and R4): column order for first-observation fields is the recorded rank; a rank is stored for every flattened field of every row, the empty value of a trimmed trailing field included, only when the value is new, and equals the number of values seen before")
 	c.Rule("C14/R10", "table keys are announced incrementally and completely: before each table a key line is printed for exactly the fields other than .unit whose value differs from the previous table's (or all of them for the first table); nothing else — such as the new value being empty — decides")
@@ -41,6 +42,7 @@ func checkC14(c *Ctx) {
 	c09FlatInvariant(c, p, "C14/R9")
 	c14TableKeys(c, p)
 	c15LoopCaptures(c, p, "C14/R12")
+	c13Thresholds(c, p, "C14/R13")
 	// the baseline is the first column in the columns' order, and for first-observation fields that order is the
 	// recorded ranks: same rule as C09/R1 + R4
 	if fm := p.Method("benchproc", "Projection", "FlattenedFields"); fm != nil {
